@@ -13,8 +13,11 @@ RULE = ('Histories of <=25 operations on a real AppCfgMgr over a temporary '
         'eventmgr, .ready flips, directory events delivered in order but late, '
         'containers finishing on their own (real MonitorContainerCleanup), '
         'the cleanup service completing links later (real Cleanup.invoke), '
-        'manager restarts and node reboots; the salt varies container names '
-        'and with them the iteration order inside _synchronize. Link structure '
+        'manager restarts and node reboots; re-created cache files reuse freed '
+        'inode numbers and get ctimes microseconds to k*128 s apart; the salt '
+        'varies container names and with them the iteration order inside '
+        '_synchronize. Generations are identified by the harness counter, '
+        'never by container name. Link structure '
         'is checked after every step, the cache/running correspondence after '
         'every synchronisation, and at event quiescence (queue empty, manager '
         'active) every running link must match the current cache generation. '
@@ -27,10 +30,14 @@ ASSUMPTIONS = [
     'appcfg.eventfile_unique_name, creates apps/<container>/data, returns '
     'None for a vanished event file, raises for manifests marked '
     'unconfigurable',
-    'the os.stat seen by appcfg.gen_uniqueid is virtualised: inode/ctime are '
-    'a function of (salt, generation number stored in the cache file), so a '
-    're-created or rewritten cache file always has a new identity and names '
-    'are reproducible',
+    'the os.stat seen by appcfg.gen_uniqueid is virtualised: inode and ctime '
+    'come from a model file system stored in the case (inode numbers handed '
+    'out in sequence and reused - most recently freed first - when the put '
+    'op says so; ctime advances by the put op\'s microsecond distance: '
+    'sub-second, seconds, or k*128 s plus a sub-second part), so names are '
+    'reproducible; a ctime whose low 13 microsecond bits equal those of an '
+    'earlier generation on the same inode (1 re-creation in 8192, a name '
+    'collision on any tree) is moved on by 17 us and counted, not claimed',
     'supervisor.control_svscan is a no-op; runtime.get_runtime(...).finish() '
     'only removes the container directory (runtime_base.finish)',
     'directory events reach the manager in inotify order, possibly late, '
@@ -45,6 +52,20 @@ BUDGET = {'quick': 3200, 'thorough': 192000}
 # 'killed' (no flag file at all) is kept out of the first three: 'exit' takes
 # KINDS[:3] + killed, 'finish' any
 KINDS = ['exitinfo', 'aborted', 'oom', 'pid1', 'killed', 'killed']
+
+
+# ctime distance (microseconds) between successive cache files: mostly well
+# below a second, sometimes seconds, sometimes k*128 s plus a sub-second part
+# (128 s = 15625 * 8192 us is where the low 13 bits of the microsecond ctime
+# that gen_uniqueid keeps wrap around exactly)
+DT_US = [7, 61, 443, 2909, 7919, 40009, 250007, 999983,
+         1000457, 2500003, 61000019,
+         128000311, 128070001, 256001013, 384499979]
+
+
+def _identity(draw):
+    """[reuse the inode freed last?, ctime distance in us]"""
+    return [draw(st.sampled_from([1, 1, 0])), draw(st.sampled_from(DT_US))]
 
 
 def _weighted(draw, choices):
@@ -89,11 +110,12 @@ def _case(draw):
         placed.add(0)
         ready = active = True
     if opening == 2:
-        ops += [['del', 0], ['deliver', 99], ['put', 0, 1], ['deliver', 99]]
+        ops += [['del', 0], ['deliver', 99],
+                ['put', 0, 1] + _identity(draw), ['deliver', 99]]
         handed = 1
     elif opening == 4:
         # evicted and placed again, both events still queued
-        ops += [['del', 0], ['put', 0, 1]]
+        ops += [['del', 0], ['put', 0, 1] + _identity(draw)]
         pending = 2
     elif opening == 3:
         ops += [['finish', 0, draw(st.sampled_from(KINDS))]]
@@ -129,7 +151,7 @@ def _case(draw):
         kind = pick[0]
         if kind == 'put':
             okay = draw(st.sampled_from([1, 1, 1, 1, 1, 0]))
-            ops.append(['put', pick[1], okay])
+            ops.append(['put', pick[1], okay] + _identity(draw))
             cached.add(pick[1])
             placed.add(pick[1])
             pending += 1
@@ -236,6 +258,15 @@ def fixed_cases():
         ('late-created-event-after-finish', {'salt': 0, 'ops': [
             ['ready', 1], ['put', 0, 1], ['deliver', 1],
             ['finish', 0, 'oom'], ['deliver', 99]]}),
+        # re-placed within the same second on the inode just freed, eviction
+        # handled first, then a resynchronisation
+        ('replace-same-inode-same-second', {'salt': 0, 'ops': running + [
+            ['del', 0], ['deliver', 99], ['put', 0, 1, 1, 443],
+            ['deliver', 99]] + resync}),
+        # the same with both events still queued, and 128 s later
+        ('replace-same-inode-128s-later-both-queued', {'salt': 0,
+                                                       'ops': running + [
+            ['del', 0], ['put', 0, 1, 1, 128000311], ['deliver', 99]]}),
         # the same with a container that was killed: no flag file at all
         ('late-created-event-after-flagless-death', {'salt': 0, 'ops': [
             ['ready', 1], ['put', 0, 1], ['deliver', 1],
